@@ -2,7 +2,7 @@
 from ..core import ints
 
 ID = "C12"
-PROPS = ["F1Verif.Props.C12", "F1Verif.Props.FactsC12"]
+PROPS = ["F1Verif.Props.C12", "F1Verif.Props.FactsC12", "F1Verif.Props.Pipeline"]
 RULE = ("engine A on api.NewDistribution (scripted rate and random sources): small (N<=40, r<=200) near-exhaustive "
         "sampling, larger random (N up to 864000, r up to 1e7) in summary form, time-varying rates over several cycles, "
         "random sources inside and beyond range, pass-through intervals, invalid kinds/intervals; outputs compared "
@@ -86,6 +86,9 @@ def generate(rng, tier):
         cyc = 1 if N > 100000 else rng.randint(1, 3)
         rates = [rng.choice([1, 2, N - 1, N + 1, rng.randint(0, 10**4), rng.randint(0, 10**7)]) for _ in range(cyc)]
         out.append("distsum regular %d %d %s" % (N * 100 * MS, cyc, ints(rates)))
+    from . import _plan
+    for _ in range({"quick": 40, "thorough": 600, "search": 200}[tier]):      # the composed pipeline, no jitter: exact totals
+        out.append(_plan.pipeline_case(rng, jitter=(0, 1)))
     rest = n - len(out)
     for _ in range(max(0, rest)):
         N = rng.randint(2, 12)
@@ -99,7 +102,7 @@ def ok(spec):
 
 def nontrivial_key(rec):
     a = rec["case"].split()
-    if a[0] == "distsum":
+    if a[0] in ("distsum", "pipeline"):
         return rec["case"]
     if a[1] in ("regular", "random") and int(a[2]) > 100 * MS and any(int(x) > 0 for x in a[4].split(",") if x != "-"):
         return rec["case"]
@@ -108,6 +111,8 @@ def nontrivial_key(rec):
 
 def signature(rec):
     a = rec["case"].split()
+    if a[0] == "pipeline":
+        return rec["case"]
     if a[0] == "distsum":
         N = int(a[2]) // (100 * MS)
         rmax = max(int(x) for x in a[4].split(","))
@@ -125,6 +130,8 @@ def distribution(recs):
         a = r["case"].split()
         if a[0] == "distsum":
             d["summary_form"] += 1
+        elif a[0] == "pipeline":
+            d["pipelines"] = d.get("pipelines", 0) + 1
         elif a[1] in d:
             d[a[1]] += 1
             if int(a[2]) <= 100 * MS:
